@@ -328,7 +328,21 @@ impl BoundsAnalyzer {
                 ..Self::from_domain(domain)
             }
         } else {
-            self
+            // `apply_to_domain` publishes an integer range rounded within the
+            // tolerance, which can be wider than the inferred interval
+            // (4.9999999995 is published as 5): operand pruning and big-M
+            // constants must use the range that is actually enforced.
+            let mut analyzer = self;
+            for (name, variable) in domain {
+                let VariableType::IntegerRange(_, _) = variable.get_type() else {
+                    continue;
+                };
+                if let Some(bounds) = analyzer.variable_bounds.get_mut(name) {
+                    bounds.lower = (bounds.lower - analyzer.tolerance).ceil();
+                    bounds.upper = (bounds.upper + analyzer.tolerance).floor();
+                }
+            }
+            analyzer
         }
     }
 
